@@ -47,6 +47,18 @@ CHECKS["C06"] = dict(
     text="Every mask-generated solution, every brute-force candidate (feasible and infeasible), alternative encodings and all single-fault corruptions of feasible solutions are fed to the shipped checker; the oracle decides accept/reject expectations; in-band candidates are skipped.",
     ref="DESIGN.md section 4 C06",
 )
+CHECKS["C07"] = dict(
+    engine="E1 EnvExplorer",
+    technique="explicit-state exhaustive BFS of env.step over all mask-admitted sequences incl. wait actions; schedule validity oracle + independent event simulator replaying every trace and conformance of mask vs simulator in every state",
+    text="All mask-admitted action sequences (wait actions included, mask_no_ops on/off, flatten on/off, padded instances) of every alphabet instance of FJSP/JSSP/FFSP/SMTWTP are executed; every leaf's reported schedule is validated against the original instance and against an independent simulator of the documented action semantics, and the simulator's offered actions must equal the mask in every explored state.",
+    ref="DESIGN.md section 4 C07",
+)
+CHECKS["C08"] = dict(
+    engine="E1 EnvExplorer",
+    technique="explicit-state exhaustive BFS of env.step over all selection orders with invariants (distinct, allowed, done-at-quota, bookkeeping = definition) evaluated in every state",
+    text="Every reachable selection prefix of every alphabet instance of FLP/MCP/DPP/MDPP is visited; invariants on distinctness, forbidden items, done exactly at quota and the bookkeeping tensors shown to the policy are checked in every state, rewards at the leaves.",
+    ref="DESIGN.md section 4 C08",
+)
 
 NOT_YET = {}
 
